@@ -31,7 +31,7 @@ RANKS = '23456789TJQKA'
 
 
 # areas of the pure core whose TRANSLATION (Generated/PyCore.lean) is run next to the real code in this check
-TRANSLATED_AREAS = ('net', 'msg')
+TRANSLATED_AREAS = ('net', 'msg', 'regex')
 
 def hx(s):
     b = s if isinstance(s, bytes) else s.encode('utf-8')
